@@ -244,7 +244,29 @@ func c11(args []string) error {
 				pool = append(pool, pooled{a, m})
 				overlapVerify(a, m)
 			}
+			// the same certificate bytes cut at other entry boundaries: a list signature (ECDSA / EdDSA) travels as one byte string per
+			// signer, so a sender can move bytes from the end of one entry to the start of the next; no such entry is a signature
+			resplit := func(a hx.AbsSig, m hx.Msg) {
+				sig := w.Sig(a)
+				mb := w.Bytes(m)
+				alt := resplitSig(sig, rng)
+				if alt == nil {
+					return
+				}
+				okU0, _, _ := verdict(func() error { return au.Verify(sig, mb) })
+				okC0, _, _ := verdict(func() error { return ac.Verify(sig, mb) }) // (the genuine one first: it is remembered if valid)
+				key := obj{"m": mids.id(mb), "c": hx.IDs(sig.Participants()), "b": bids.id(sig.ToBytes())}
+				o.emit(obj{"op": "verify", "n": n, "scheme": scheme, "sig": a, "msg": m, "key": key, "vc": okC0, "vu": okU0, "lru": lru(key)})
+				xU, _, _ := verdict(func() error { return au.Verify(alt, mb) })
+				xC, _, _ := verdict(func() error { return ac.Verify(alt, mb) })
+				o.emit(obj{"op": "xverify", "of": "resplit", "n": n, "scheme": scheme, "vc": xC, "vu": xU})
+			}
 			for step := 0; step < *length; step++ {
+				if !bls && rng.Intn(12) == 0 && len(pool) > 0 {
+					p := pool[rng.Intn(len(pool))]
+					resplit(p.sig, p.msg)
+					continue
+				}
 				if rng.Intn(8) == 0 && len(pool) > 0 {
 					p := pool[rng.Intn(len(pool))]
 					switch rng.Intn(3) {
@@ -378,4 +400,33 @@ func uniqInts(a []int) []int {
 		}
 	}
 	return out
+}
+
+// resplitSig: the same signers and the same concatenated bytes, with one entry boundary moved.
+func resplitSig(sig hotstuff.QuorumSignature, rng *rand.Rand) hotstuff.QuorumSignature {
+	switch m := sig.(type) {
+	case crypto.Multi[*crypto.ECDSASignature]:
+		if len(m) < 2 {
+			return nil
+		}
+		i := rng.Intn(len(m) - 1)
+		a, b := m[i].ToBytes(), m[i+1].ToBytes()
+		k := 1 + rng.Intn(len(a)-1)
+		out := append(crypto.Multi[*crypto.ECDSASignature]{}, m...)
+		out[i] = crypto.RestoreECDSASignature(append([]byte{}, a[:len(a)-k]...), m[i].Signer())
+		out[i+1] = crypto.RestoreECDSASignature(append(append([]byte{}, a[len(a)-k:]...), b...), m[i+1].Signer())
+		return out
+	case crypto.Multi[*crypto.EDDSASignature]:
+		if len(m) < 2 {
+			return nil
+		}
+		i := rng.Intn(len(m) - 1)
+		a, b := m[i].ToBytes(), m[i+1].ToBytes()
+		k := 1 + rng.Intn(len(a)-1)
+		out := append(crypto.Multi[*crypto.EDDSASignature]{}, m...)
+		out[i] = crypto.RestoreEDDSASignature(append([]byte{}, a[:len(a)-k]...), m[i].Signer())
+		out[i+1] = crypto.RestoreEDDSASignature(append(append([]byte{}, a[len(a)-k:]...), b...), m[i+1].Signer())
+		return out
+	}
+	return nil
 }
